@@ -113,6 +113,7 @@ theorem svcT_armTtl (s : Stack) (ttl : Nat) (cb : Cb) (h : isSvcExpiry cb = fals
 
 @[simp] theorem svcT_with_flushLog (s : Stack) (x : List (Dest × List SDEntry)) : svcT { s with flushLog := x } = svcT s := rfl
 @[simp] theorem svcT_with_subLog (s : Stack) (x : List (Addr × Nat × List Eventgroup)) : svcT { s with subLog := x } = svcT s := rfl
+@[simp] theorem svcT_with_findLog (s : Stack) (x : List (Nat × Nat)) : svcT { s with findLog := x } = svcT s := rfl
 @[simp] theorem svcT_with_subDup (s : Stack) (x : Bool) : svcT { s with subDup := x } = svcT s := rfl
 @[simp] theorem svcT_with_subLost (s : Stack) (x : Bool) : svcT { s with subLost := x } = svcT s := rfl
 @[simp] theorem svcT_with_alive_subLost (s : Stack) (x y : Bool) : svcT { s with alive := x, subLost := y } = svcT s := rfl
